@@ -3,4 +3,4 @@ from . import _sc
 
 
 def main(tier):
-    return _sc.run("C04", tier, ["c04_"], names=_sc.ALL + ["inv_chain", "inv_attr", "frozen_list"], quick_pairs=9000)
+    return _sc.run("C04", tier, ["c04_"], names=_sc.ALL + ["inv_chain", "inv_attr", "frozen_list", "frozen_dnc", "frozen_child", "frozen_kids"], quick_pairs=9000)
